@@ -440,7 +440,7 @@ def run_shard(ctx, args):
             one_instance(ctx, desc)
         except ValueError as e:
             # constructor refused the generated description: not a case
-            if "does not fit" in str(e) or "must be in" in str(e):
+            if wb.outside_domain(desc):
                 ctx.count("generator_rejected_by_ctor")
                 continue
             raise
